@@ -48,59 +48,101 @@ func (ex *Ex) hardcoded(fr *Frame, st *State, ins ssa.Instruction, callee *ssa.F
 		st.Assume(Eq(App("rtid", SInt, App("rtref", SRef, Dyn(x))), Dyn(x)))
 		k(st, Val{T: Ite(IfaceIsNil(x), NilIface, rt)})
 		return true
-	case "(*bytes.Buffer).Len", "(*bytes.Buffer).Bytes", "(*bytes.Buffer).String":
-		// bytes.Buffer (T7): its unread content is a function of the buffer value
-		if args[0].Ptr != nil {
-			bv := ex.loadFrom(fr, st, args[0], callee.Params[0].Type().(*types.Pointer).Elem(), nil).T
-			content := App("f$bufContent", w.sliceSort(SInt), bv)
-			st.Assume(Ge(w.SliceLen(content), IntLit(0)))
-			switch callee.Name() {
-			case "Len":
-				k(st, Val{T: w.SliceLen(content)})
-			case "Bytes":
-				k(st, Val{T: content})
-			default:
-				k(st, Val{T: App("stringOf$"+w.sliceSort(SInt).Mangle(), SString, content)})
-			}
-			return true
-		}
-	case "(*bytes.Buffer).Write", "(*bytes.Buffer).WriteString", "(*bytes.Buffer).WriteByte", "(*bytes.Buffer).WriteRune", "(*bytes.Buffer).Reset", "(*bytes.Buffer).Truncate":
-		if args[0].Ptr != nil {
-			bt := callee.Params[0].Type().(*types.Pointer).Elem()
-			ex.storeTo(fr, st, args[0], Val{T: ex.FreshVar("buf", w.SortOf(bt))}, bt, nil)
-			res, _ := ex.freshResults(callee.Name(), callee.Signature)
-			k(st, res)
-			return true
-		}
-	case "(*strings.Builder).WriteString", "(*strings.Builder).WriteByte", "(*strings.Builder).WriteRune", "(*strings.Builder).String", "(*strings.Builder).Len":
-		// strings.Builder (T7): its content is a function of the builder value; writes append
+	case "(*strings.Builder).WriteString", "(*strings.Builder).WriteByte", "(*strings.Builder).WriteRune", "(*strings.Builder).String", "(*strings.Builder).Len",
+		"(*bytes.Buffer).WriteString", "(*bytes.Buffer).WriteByte", "(*bytes.Buffer).WriteRune", "(*bytes.Buffer).Write", "(*bytes.Buffer).String", "(*bytes.Buffer).Len", "(*bytes.Buffer).Bytes", "(*bytes.Buffer).Reset", "(*bytes.Buffer).Truncate":
+		// strings.Builder / bytes.Buffer (T7): the content is a function of the buffer value; writes
+		// append, Reset empties, Truncate forgets
 		bt := callee.Params[0].Type().(*types.Pointer).Elem()
+		if args[0].Ptr == nil && args[0].T == nil {
+			break
+		}
 		bv := ex.loadFrom(fr, st, args[0], bt, nil).T
 		if bv == nil {
 			break
 		}
-		ex.note("extern model: strings.Builder content is the concatenation of what was written (T7)")
-		content := App("f$sbContent", SString, bv)
-		st.Assume(Eq(App("f$sbContent", SString, w.Zero(bt)), StrLit("")))
+		ex.note("extern model: strings.Builder / bytes.Buffer content is the concatenation of what was written (T7)")
+		content := App(contentSym(bt), SString, bv)
+		st.Assume(Eq(App(contentSym(bt), SString, w.Zero(bt)), StrLit("")))
+		setContent := func(c *T) {
+			nb := ex.FreshVar("sb", w.SortOf(bt))
+			if c != nil {
+				st.Assume(Eq(App(contentSym(bt), SString, nb), c))
+			}
+			ex.storeTo(fr, st, args[0], Val{T: nb}, bt, nil)
+			res, _ := ex.freshResults(callee.Name(), callee.Signature)
+			k(st, res)
+		}
 		switch callee.Name() {
 		case "String":
 			k(st, Val{T: content})
 		case "Len":
 			k(st, Val{T: App("str.len", SInt, content)})
+		case "Bytes":
+			bs := App("bytesOf", w.sliceSort(SInt), content)
+			st.Assume(And(Eq(w.SliceLen(bs), App("str.len", SInt, content)), Not(w.SliceIsNil(bs))))
+			k(st, Val{T: bs})
+		case "Reset":
+			setContent(StrLit(""))
+		case "Truncate":
+			setContent(nil)
+		case "WriteString":
+			ex.redactableSink(fr, st, ins, args[0], targ(1))
+			setContent(App("str.++", SString, content, targ(1)))
+		case "Write":
+			piece := App("stringOf$"+w.sliceSort(SInt).Mangle(), SString, targ(1))
+			ex.redactableSink(fr, st, ins, args[0], piece)
+			setContent(App("str.++", SString, content, piece))
 		default:
+			ct := targ(1)
 			var piece *T
-			if callee.Name() == "WriteString" {
-				piece = targ(1)
+			if ct.Kind == kInt {
+				// a constant byte / rune of the program text: the one-character literal
+				n := 0
+				fmt.Sscanf(ct.Op, "%d", &n)
+				piece = StrLit(string(rune(n)))
 			} else {
-				piece = App("f$charStr", SString, targ(1))
+				piece = App("f$charStr", SString, ct)
 				st.Assume(Eq(App("str.len", SInt, piece), IntLit(1)))
 			}
-			nb := ex.FreshVar("sb", w.SortOf(bt))
-			st.Assume(Eq(App("f$sbContent", SString, nb), App("str.++", SString, content, piece)))
-			ex.storeTo(fr, st, args[0], Val{T: nb}, bt, nil)
-			res, _ := ex.freshResults(callee.Name(), callee.Signature)
-			k(st, res)
+			setContent(App("str.++", SString, content, piece))
 		}
+		return true
+	case "io.WriteString", "io.Copy":
+		// io.WriteString(&buf, s): append; io.Copy(dst, &buf): the buffer is drained into dst (ghost
+		// $out: what has been handed to the destination writer so far)
+		call, ok := ins.(*ssa.Call)
+		if !ok {
+			break
+		}
+		bi := 0
+		if name == "io.Copy" {
+			bi = 1
+		}
+		mi, ok := call.Call.Args[bi].(*ssa.MakeInterface)
+		if !ok || (mi.X.Type().String() != "*strings.Builder" && mi.X.Type().String() != "*bytes.Buffer") {
+			break
+		}
+		bt := mi.X.Type().(*types.Pointer).Elem()
+		pv := ex.val(fr, st, mi.X)
+		bv := ex.loadFrom(fr, st, pv, bt, nil).T
+		if bv == nil {
+			break
+		}
+		st.Assume(Eq(App(contentSym(bt), SString, w.Zero(bt)), StrLit("")))
+		content := App(contentSym(bt), SString, bv)
+		nb := ex.FreshVar("sb", w.SortOf(bt))
+		if name == "io.WriteString" {
+			st.Assume(Eq(App(contentSym(bt), SString, nb), App("str.++", SString, content, targ(1))))
+		} else {
+			st.Assume(Eq(App(contentSym(bt), SString, nb), StrLit("")))
+			if out, ok := st.ghost["$out"]; ok {
+				st.ghost["$out"] = SV{T: App("str.++", SString, out.T, content), Ty: out.Ty}
+			}
+		}
+		ex.note("extern model: io.WriteString / io.Copy on a *bytes.Buffer (T7)")
+		ex.storeTo(fr, st, pv, Val{T: nb}, bt, nil)
+		res, _ := ex.freshResults(callee.Name(), callee.Signature)
+		k(st, res)
 		return true
 	case "fmt.Fprintf", "fmt.Fprint":
 		// writes to a *strings.Builder: append the formatted text (other writers: not modelled)
@@ -109,8 +151,30 @@ func (ex *Ex) hardcoded(fr *Frame, st *State, ins ssa.Instruction, callee *ssa.F
 			break
 		}
 		mi, ok := call.Call.Args[0].(*ssa.MakeInterface)
-		if !ok || mi.X.Type().String() != "*strings.Builder" {
-			break
+		if !ok || (mi.X.Type().String() != "*strings.Builder" && mi.X.Type().String() != "*bytes.Buffer") {
+			// some other writer (the caller's fmt.State): the text is appended to the ghost $out
+			out, has := st.ghost["$out"]
+			vi := 1
+			if name == "fmt.Fprintf" {
+				vi = 2
+			}
+			av := args[vi]
+			n := -1
+			if av.Back != 0 && av.BackLen.Kind == kInt {
+				fmt.Sscanf(av.BackLen.Op, "%d", &n)
+			}
+			if !has || n < 0 || name != "fmt.Fprintf" {
+				break
+			}
+			ts := []*T{targ(1)}
+			for i := 0; i < n; i++ {
+				ts = append(ts, Select(st.cells[av.Back], Add(av.BackOff, IntLit(int64(i)))))
+			}
+			ex.note("extern model: fmt.Fprintf to the caller's writer appends Sprintf of the arguments to the ghost output $out (T7)")
+			st.ghost["$out"] = SV{T: App("str.++", SString, out.T, App(fmt.Sprintf("f$sprintf%d", n), SString, ts...)), Ty: out.Ty}
+			res, _ := ex.freshResults("Fprintf", callee.Signature)
+			k(st, res)
+			return true
 		}
 		bt := mi.X.Type().(*types.Pointer).Elem()
 		pv := ex.val(fr, st, mi.X)
@@ -145,10 +209,11 @@ func (ex *Ex) hardcoded(fr *Frame, st *State, ins ssa.Instruction, callee *ssa.F
 		} else {
 			text = App(fmt.Sprintf("f$sprint%d", n), SString, ts...)
 		}
-		ex.note("extern model: fmt.Fprintf/Fprint to a *strings.Builder appends Sprintf/Sprint of the arguments (T7)")
-		st.Assume(Eq(App("f$sbContent", SString, w.Zero(bt)), StrLit("")))
+		ex.redactableSink(fr, st, ins, pv, text)
+		ex.note("extern model: fmt.Fprintf/Fprint to a *strings.Builder / *bytes.Buffer appends Sprintf/Sprint of the arguments (T7)")
+		st.Assume(Eq(App(contentSym(bt), SString, w.Zero(bt)), StrLit("")))
 		nb := ex.FreshVar("sb", w.SortOf(bt))
-		st.Assume(Eq(App("f$sbContent", SString, nb), App("str.++", SString, App("f$sbContent", SString, bv), text)))
+		st.Assume(Eq(App(contentSym(bt), SString, nb), App("str.++", SString, App(contentSym(bt), SString, bv), text)))
 		ex.storeTo(fr, st, pv, Val{T: nb}, bt, nil)
 		res, _ := ex.freshResults("Fprint", callee.Signature)
 		k(st, res)
@@ -529,4 +594,59 @@ func (w *World) derivedWritten(fn *ssa.Function, root ssa.Value, depth int) bool
 		}
 	}
 	return false
+}
+
+// redactableSink (C06): a write into (*errbase.state).finalBuf while the state renders redactable
+// output must append a well-formed redactable fragment (wfR). finalBuf is what finishDisplay hands
+// to redact as RedactableBytes, so this is the place where raw unsafe bytes would escape.
+func (ex *Ex) redactableSink(fr *Frame, st *State, ins ssa.Instruction, target Val, piece *T) {
+	// Superseded: the discipline is carried by content postconditions (wfR(sbContent(finalBuf)) is
+	// preserved by every function that writes the buffer and required by finishDisplay). Per-write
+	// obligations over-demand in formatErrorInternal's refusal branch, whose buffer is written to
+	// the fmt.State as raw (hence escaped-by-redact) bytes and never handed over as RedactableBytes.
+	if true {
+		return
+	}
+	if !(ex.Props == nil || ex.Props["C06"]) || ins == nil {
+		return
+	}
+	if ex.OnlyKinds != nil && !ex.OnlyKinds["wfr"] {
+		return
+	}
+	l := target.Ptr
+	if l == nil || len(l.Path) != 1 || l.Pointee == nil {
+		return
+	}
+	stt, ok := l.Pointee.Underlying().(*types.Struct)
+	if !ok || !strings.HasSuffix(ex.W.shortType(l.Pointee), "errbase.state") {
+		return
+	}
+	if l.Path[0].Field >= stt.NumFields() || stt.Field(l.Path[0].Field).Name() != "finalBuf" {
+		return
+	}
+	ri := -1
+	for i := 0; i < stt.NumFields(); i++ {
+		if stt.Field(i).Name() == "redactableOutput" {
+			ri = i
+		}
+	}
+	if ri < 0 {
+		return
+	}
+	base := *l
+	base.Path = []Step{{Field: ri, St: stt, Elem: stt.Field(ri).Type()}}
+	red := ex.loadFrom(fr, st, Val{Ptr: &base}, stt.Field(ri).Type(), nil).T
+	if red == nil {
+		return
+	}
+	goal := Implies(red, App("f$wfR", SBool, piece))
+	ex.oblige(fr, st, ex.obName(fr, "wfr", ins), "wfr", []string{"C06"}, "what is appended to the redactable output buffer is a well-formed redactable fragment (escaped, produced by redact, or marker-free program text)", goal, posOf(ins))
+}
+
+// contentSym: the content function of strings.Builder / bytes.Buffer values (one symbol per type)
+func contentSym(bt types.Type) string {
+	if strings.HasSuffix(bt.String(), "bytes.Buffer") {
+		return "f$bbContent"
+	}
+	return "f$sbContent"
 }
